@@ -272,7 +272,24 @@ impl<B: SimField, H: ElementHasher<BaseField = B> + Send + Sync + 'static> Base 
             AcceptableOptions::MinProvenSecurity(0),
             AcceptableOptions::OptionSet(vec![self.case.options.clone()]),
         ];
+        let nonce_pair = if only_nonce_differs { Some((self.proof.pow_nonce, proof.pow_nonce)) } else { None };
         let (v, u2) = metered(|| verify_with::<B, H, DefaultRandomCoin<H>>(proof, ins, &policies[policy % 3]));
+        // A proof that differs from the accepted original in the nonce only and is accepted: either
+        // the other nonce happens to meet the proof-of-work bound and to select the same set of
+        // positions (another correct proof, see DESIGN 6.3), or the coin does not tell the two
+        // nonces apart at all. The second is decided on the real coin in the state in which the
+        // verifier asks for the positions: 64 integers below 2^32 under each nonce.
+        let mut only_nonce_differs = only_nonce_differs;
+        if let (Some((n0, n1)), true) = (nonce_pair, v.accepted()) {
+            crate::coin::set_alias_probe(n1);
+            crate::coin::clear_log();
+            let _ = verify_with::<B, H, crate::coin::RecordingCoin<H>>(self.proof.clone(), self.case.inputs.clone(), &min_sec0());
+            crate::coin::clear_log();
+            if crate::coin::take_alias_probe() == Some(true) {
+                ctx.event_with("alias", n0 ^ n1, || format!("the coin gives identical outputs for the nonces {n0} and {n1}"));
+                only_nonce_differs = false; // not "another valid nonce": the two are not told apart
+            }
+        }
         Delivered {
             parse: ParseRes::Ok,
             verify: Some(v),
